@@ -284,5 +284,11 @@ pub fn run(ctx: &Ctx) -> usize {
 	if run_dna(ctx, "dna", ctx.n(3000, 100_000), dna_max(ctx), |dna, counting| check(ctx, &gen_case(dna, &cfg), "dna", counting)).is_some() {
 		violations += 1;
 	}
+	if !ctx.quick() && violations == 0 {
+		let secs = std::env::var("PV_FUZZ_SECS").ok().and_then(|s| s.parse().ok()).unwrap_or(200);
+		if rt::run_fuzz(ctx, "incremental_diff", secs, 8, 4096, &rt::random_seeds(ctx.seed, 12, 1024)).is_some() {
+			violations += 1;
+		}
+	}
 	violations
 }
